@@ -43,6 +43,8 @@ def builtin_syntax_snippets():
 
 
 def _ref_child(callspec, want_entries):
+    import warnings
+    warnings.showwarning = lambda *a, **k: None
     sys.setrecursionlimit(BASE_RECURSION_LIMIT)
     return reference_call(callspec, want_entries)
 
